@@ -1,3 +1,5 @@
+import os as _os, sys as _sys
+_sys.path.insert(0, _os.path.dirname(_os.path.abspath(__file__)))
 import vlib
 
 PROP = dict(
@@ -35,6 +37,15 @@ def run(ctx):
     ctx.rules.append("scenarios of one swap driven through the real SwapService (4 roles x btc/lbtc; directed flows first, then random walks with failure injection, deviating peer messages, chain advances around both payment windows, restarts); a scenario is non-trivial when it has more than one step; distinct by role/chain/step kinds/final state")
     ctx.absorb(res, "fsm", signature=sig,
                describe=lambda c: "a Liquid claim payment was attempted outside the persisted window / with a wrong CLTV bound (role %s)" % c.get("role"))
+    # watcher side: the Liquid tip the window check reads comes from the lwk electrum watcher (monotonic tip, opening tx
+    # deadline): the C20 electrum family and monitor on the real watcher
+    d2 = ctx.harness("c20", outdir=ctx.work + "/watch_elec", args=["-n", 150 if ctx.quick else 3000, "-only", "elec"])
+    if d2 is not None:
+        res2 = vlib.eval_cases(d2)
+        ctx.rules.append("electrum watcher family (shared with C20): the real lwk electrum watcher over header sequences incl. lower / stale / invalid headers; compared with the watcher model (accepted tip never decreases), monitor: reports are true of the chain")
+        ctx.absorb(res2, "watch-elec", signature=lambda c: "watcher:" + __import__("importlib").import_module("C20").sig(c),
+                   mismatch_is_violation=False,
+                   describe=lambda c: "the electrum watcher (%s) reported a height / confirmation that is not true of the simulated chain" % c.get("fn"))
 
 
 def search(ctx):
